@@ -381,6 +381,34 @@ let run_case op toks =
       let ks = next_zlist toks in
       let e = ext_from_pack t p v in
       let xs = extents_dyn p v in
+      if op = "subfl" then begin
+        (* first_ / last_ of [mdspan.sub.helpers] per dimension *)
+        let ls = next_zlist toks in
+        let mk raw k kz =
+          let c = if raw then (fun z -> z) else cast t in
+          match ss.[k] with
+          | 'F' -> SlFull
+          | 'P' -> SlPair (c kz, c (List.nth ls k))
+          | 'C' -> SlCPair (zi 0, zi 2)
+          | 'K' -> SlCPair (zi 1, zi 3)
+          | _ -> SlIndex (c kz) in
+        let exts = extents_list t e in
+        let ml = join ("ok" :: List.concat (List.mapi (fun k kz ->
+            let s = mk false k kz in
+            [ zs (sub_first t s); (match sub_last t (List.nth exts k) s with Some v -> zs v | None -> "ub") ]) ks)) in
+        let dom = all_repr t xs
+                  && List.for_all2 (fun (c, (kz, lz)) x ->
+                         match c with
+                         | 'F' -> true
+                         | 'P' -> (not (is_neg kz)) && z_le kz lz && z_le lz x
+                         | 'C' -> z_le (zi 2) x
+                         | 'K' -> z_le (zi 3) x
+                         | _ -> (not (is_neg kz)) && z_lt kz x)
+                       (List.mapi (fun k kz -> (ss.[k], (kz, List.nth ls k))) ks) xs in
+        let sl = join ("ok" :: List.concat (List.mapi (fun k kz ->
+            let s = mk true k kz in [ zs (first_ s); zs (last_ (List.nth xs k) s) ]) ks)) in
+        (ml, if dom then sl else "na")
+      end else
       if op = "subextp" then begin
         let ls = next_zlist toks in
         let sl = List.mapi (fun k kz ->
@@ -488,6 +516,12 @@ let run_case op toks =
       let parent = mk_span x start len in
       let line r = res_tok (span_line buf) r in
       match op with
+      | "sp_ctor" ->
+          let cnt = size_arg a in
+          let c = line (sp_ctor x start cnt) in
+          let dom = (match x with None -> true | Some n -> z_eq n cnt) in
+          (join [ "ok"; "p"; c; "s"; c; "r"; c ],
+           if dom then (let s = spec_span_line buf start cnt x in join [ "ok"; "p"; s; "s"; s; "r"; s ]) else "na")
       | "sp_first_d" ->
           let c = size_arg a in
           (line (sp_first_d parent c), if z_le c len then spec_span_line buf start c None else "na")
